@@ -101,6 +101,10 @@ def rules(p):
     R.append(("summarize.bare_in_expr", "FunctionTypeError", lambda x: x >> p.group_by(C.g) >> p.summarize(y=C.b.max() + C.a)))
     R.append(("summarize.bare_in_case", "FunctionTypeError", lambda x: x >> p.group_by(C.g) >> p.summarize(y=p.when(C.a > 0).then(C.b.max()).otherwise(0))))
     R.append(("summarize.bare_ungrouped", "FunctionTypeError", lambda x: x >> p.summarize(y=C.b.max() - C.b)))
+    # 5b. a grouping column that is no longer selected when summarize is applied
+    R.append(("summarize.hidden_group_key_dropped", "ValueError", lambda x: x >> p.group_by(C.g) >> p.drop(C.g) >> p.summarize(n=p.count())))
+    R.append(("summarize.hidden_group_key_overwritten", "ValueError", lambda x: (lambda d: d >> p.group_by(d.g) >> p.mutate(g=C.b) >> p.summarize(n=p.count()))(x)))
+    R.append(("summarize.hidden_group_key_selected_away", "ValueError", lambda x: x >> p.group_by(C.g) >> p.select(C.b, C.a) >> p.summarize(m=C.b.max())))
     # 6. unknown / re-selected hidden columns
     R.append(("unknown.C_in_mutate", "ColumnNotFoundError", lambda x: x >> p.mutate(y=C.nope + 1)))
     R.append(("unknown.C_in_filter", "ColumnNotFoundError", lambda x: x >> p.filter(C.nope > 1)))
